@@ -361,7 +361,7 @@ def split_types(data):
 
 
 def in_state(state, cfgd=None, hold=None, now=0, allow_auto=True, counters=None, closing=False, old_closing=False,
-             pending_attempt=False, old_closed=False, stale_hold=None):
+             pending_attempt=False, old_closed=False, stale_hold=None, stale_hold_timer=None):
     """Place the real objects in `state` satisfying the shared invariant (DESIGN app. B):
        Idle(auto): idle-hold armed;  Idle(stopped): nothing armed
        Connect: one connector connecting, connect-retry armed
@@ -434,6 +434,10 @@ def in_state(state, cfgd=None, hold=None, now=0, allow_auto=True, counters=None,
         # what an earlier session negotiated is still in the FSM until the next connection is made
         f.hold_time = stale_hold
         f.keep_alive_time = stale_hold / 3
+    if stale_hold_timer is not None and state in (IDLE, CONNECT):
+        # reachable on the pinned tree: a connection dropped by the peer in OpenSent leaves the 240 s hold timer armed (a
+        # version-error NOTIFICATION in OpenConfirm the negotiated one): it is still running in Idle / Connect
+        f.hold_timer.reset(stale_hold_timer)
     if old_closed:
         # an earlier connection of this peer that is completely over (connectionLost delivered): the FSM keeps
         # pointing at its protocol object until the next connection is built
